@@ -23,6 +23,8 @@ pub mod rshim;
 pub mod gen_repl;
 pub mod fshim;
 pub mod gen_follower;
+pub mod cshim;
+pub mod gen_client;
 
 /// exact-size Vec of 0..=3 elements (no push: see DESIGN 2b)
 pub fn h_vec3<T>(n: usize, mut f: impl FnMut(usize) -> T) -> Vec<T> {
